@@ -123,7 +123,7 @@ def model_check(chk: Check, insts):
     if r.violated:
         raise MachineryError(f"reference model violates {r.violated_name} (scan/chunk/numpyfix loops):\n"
                              + "\n".join(r.stdout.splitlines()[-60:]))
-    for act in ("Load", "Advance", "Step", "Done"):
+    for act in ("Load", "Step", "Done"):
         if act in r.coverage_zero:
             raise MachineryError(f"model action {act} never taken (vacuous model run)")
     chk.note("model_states_good_loops", r.states)
@@ -266,10 +266,12 @@ def run(chk: Check):
         md = float(M.diagonal().max())
         thrs = [(CODE_THR0 if t[0] == 0 else float(F(t[0], t[1]))) for t in I["thrs"]]
         model_ok = [x["ok"] for x in o["numpy"]] + [None, None]
+        model_nv = [(x["nvec"], y["nvec"]) for x, y in zip(o["numpy"], o["numpyfix"])] + [None, None]
         thrs += [max(CODE_THR0, 1e-6 * md), max(CODE_THR0, 1e-3 * md)]
-        for t, mok in zip(thrs, model_ok):
+        for t, mok, mnv in zip(thrs, model_ok, model_nv):
             L, exc = attempt(code.numpy_chol, M, t)
             push(repro_record(0, M, L, t), routine="numpy", inst=I["id"], thr=t, rank=rank, n=n, model_ok=mok,
+                 model_nvec=mnv,
                  M=M.tolist(), nontrivial=L is not None and L.shape[0] > 0, exception=exc)
         L, exc = attempt(code.jax_chol, M, rank)
         push(repro_record(0, M, L, 0.0), routine="jax", inst=I["id"], cnt=rank, rank=rank, n=n, M=M.tolist(),
@@ -294,6 +296,22 @@ def run(chk: Check):
             L, exc = attempt(code.jax_chol, M, r)
             push(repro_record(0, M, L, 0.0), routine="jax", inst=f"float-{k}", cnt=r, rank=r, n=n, M=M.tolist(),
                  nontrivial=True, exception=exc)
+
+    # ------------------------------------------------------------------ observation (outside the contract)
+    # TLC (InvScan): asked for more vectors than the rank, the scan loop necessarily divides by a zero pivot
+    obs = {"probed": 0, "non_finite_output": 0}
+    for I in [I for I in insts if orc[I["id"]]["rank"] < I["n"]][:25]:
+        L, exc = attempt(code.jax_chol, chol.qmat(orc[I["id"]]["M"]), orc[I["id"]]["rank"] + 1)
+        obs["probed"] += 1
+        obs["non_finite_output"] += 0 if (L is not None and np.all(np.isfinite(L))) else 1
+    chk.note("observation_jax_routine_asked_for_rank_plus_one_vectors", obs)
+    out = {}
+    for lp in ("numpy", "chunk", "numpyfix"):
+        res = [(x, orc[I["id"]]["rank"], I["n"]) for I in insts for x in orc[I["id"]][lp]]
+        out[lp] = {"runs": len(res), "stopped_before_rank": sum(1 for x, rk, n in res if x["nvec"] < rk),
+                   "returned_n_vectors": sum(1 for x, rk, n in res if x["nvec"] == n),
+                   "reproduces": sum(1 for x, rk, n in res if x["ok"])}
+    chk.note("model_loop_outcomes", out)
 
     # ------------------------------------------------------------------ derivatives of the JAX routine
     traces, tinfo = derivative_records(chk, code, insts, orc, push)
@@ -410,33 +428,45 @@ def _val(d):
 
 def report(chk, recs, info, verdicts):
     agree = {"model_fail_code_fail": 0, "model_fail_code_ok": 0, "model_ok_code_fail": 0, "model_ok_code_ok": 0}
+    shape = {"runs": 0, "vectors_as_numpy_loop_shape": 0, "vectors_as_numpyfix_loop_shape": 0}
     for r in recs:
         k, v = info[r["id"]], verdicts[r["id"]]
         chk.traces += 1
         chk.case((k["routine"], str(k["inst"]), k.get("thr", k.get("cnt", 0))), nontrivial=bool(k.get("nontrivial", True)))
         if k.get("model_ok") is not None:
             agree[("model_ok" if k["model_ok"] else "model_fail") + ("_code_ok" if v["ok"] else "_code_fail")] += 1
+        if k.get("model_nvec"):          # informational: which loop shape of the spec the code follows
+            shape["runs"] += 1
+            shape["vectors_as_numpy_loop_shape"] += int(r["nvec"] == k["model_nvec"][0])
+            shape["vectors_as_numpyfix_loop_shape"] += int(r["nvec"] == k["model_nvec"][1])
         if k["routine"] in ("numpy", "jax") and "M" in k and k["n"] <= 4:
             chk.sample({"routine": k["routine"], "M": k["M"], "thr_or_count": k.get("thr", k.get("cnt")),
                         "vectors_returned": r["nvec"], "max_error": _val(v["worst"]), "bound": _val(v["bound"])}, limit=6)
         if v["ok"]:
             continue
-        clause = (f"raised {k['exception']}" if k.get("exception") else "non-finite output" if not v["finite_ok"]
-                  else "more vectors than the dimension" if not v["count_ok"] else "error above bound")
+        rk = "unknown" if k["rank"] is None else k["rank"]
         what = {
-            "numpy": f"pyscf_interface.modified_cholesky(M, {k.get('thr')}) on a {k['n']}x{k['n']} PSD matrix of rank "
-                     f"{k['rank']} returned {r['nvec']} vectors",
-            "jax": f"linalg_utils.modified_cholesky(M, norb, {k.get('cnt')}) on a {k['n']}x{k['n']} PSD matrix of rank "
-                   f"{k['rank']}",
-            "jvp": f"jax.jvp of M -> Gram(linalg_utils.modified_cholesky(M, norb, {k['rank']})), {k['n']}x{k['n']}, "
-                   f"vs TLC's exact tangent",
-            "chunked": f"pyscf_interface.chunked_cholesky({k['inst']}/sto-3g, {k.get('thr')}) returned {r['nvec']} vectors",
+            "numpy": f"pyscf_interface.modified_cholesky(M, {k.get('thr')}) on a {k['n']}x{k['n']} PSD matrix "
+                     f"(rank {rk})",
+            "jax": f"linalg_utils.modified_cholesky(M, norb, {k.get('cnt')}) on a {k['n']}x{k['n']} PSD matrix of rank {rk}",
+            "jvp": f"jax.jvp of M -> Gram(linalg_utils.modified_cholesky(M, norb, {rk})), {k['n']}x{k['n']}",
+            "chunked": f"pyscf_interface.chunked_cholesky({k['inst']}/sto-3g, {k.get('thr')})",
         }[k["routine"]]
-        chk.violation(site_of(k), f"{what}: {clause}: max|M - sum_g L_g L_g^T| = {_val(v['worst']):.3e} > "
-                                  f"{_val(v['bound']):.3e}",
+        qty = "max|jvp - exact tangent (TLC)|" if k["routine"] == "jvp" else "max|M - sum_g L_g L_g^T|"
+        if k.get("exception"):
+            detail = f"raised {k['exception']}"
+        elif not v["finite_ok"]:
+            detail = "non-finite output"
+        elif not v["count_ok"]:
+            detail = f"returned {r['nvec']} vectors, more than the dimension {r['nmax']}"
+        else:
+            detail = (("" if k["routine"] == "jvp" else f"returned {r['nvec']} vectors, ")
+                      + f"{qty} = {_val(v['worst']):.3e} > bound {_val(v['bound']):.3e}")
+        chk.violation(site_of(k), f"{what}: {detail}",
                       {"kind": k["routine"], **{x: y for x, y in k.items() if x not in ("nontrivial",)},
                        "verdict": v})
     chk.note("numpy_loop_model_vs_code", agree)
+    chk.note("numpy_routine_vector_counts_vs_model", shape)
 
 
 # ----------------------------------------------------------------------------- replay of a stored case
